@@ -600,6 +600,9 @@ func (o mkOp) argv(ns string) [][]byte {
 }
 
 func (o mkOp) keyList() []string {
+	if o.Name == "SET" {
+		return o.Keys[:1]
+	}
 	if o.Name != "PLSET" {
 		return o.Keys
 	}
@@ -831,7 +834,7 @@ func c15MultiKey(c *vc.Ctx, s0 *Host, liveNs []int, eng string) {
 				rs, err = conn.DoLone(o.argv(ns), 300*time.Millisecond)
 			case o.Name == "PLSET":
 				// k pipelined SETs in one write: the server folds them into PLSET
-				rs, err = conn.DoPipelinedSets(o.argv(ns)[1:])
+				rs, err = conn.DoPipelinedSetsFramed(o.argv(ns)[1:], 300*time.Millisecond) // framed: a missing reply is an observation, not a hang
 			default:
 				rs, err = conn.DoFramed(o.argv(ns))
 			}
@@ -894,16 +897,56 @@ func c15MultiKey(c *vc.Ctx, s0 *Host, liveNs []int, eng string) {
 		}
 		modelReplies[i] = modelApply(model, o)
 	}
-	// one-store (real, n=1) vs Go map: a deviation here is about single-store
-	// command semantics (C08), not about partitioning; measured, not judged.
+	// The real 1-partition namespace goes through the same merge code as the
+	// n-partition ones, so the differential is blind to defects of that code
+	// that do not depend on the partition count (e.g. a key named twice being
+	// dropped). The independent Go map (redis semantics: EXISTS counts every
+	// occurrence, DEL each existing key once, PLSET / pipelined SETs in order,
+	// one OK per pair, MGET per position) is therefore an oracle for the
+	// one-store run: replies (incl. their number) and the final state.
 	devs := map[string]int{}
-	for i, o := range ops {
-		if one.replies[i] != modelReplies[i] {
-			devs[o.Name]++
-			c.Ev.Sample(16, map[string]interface{}{"part": "d-onestore-vs-gomap", "cmd": qargv(o.argv("p1")), "one_store_reply": one.replies[i], "go_map_reply": modelReplies[i]})
+	modelFired := map[string]bool{}
+	hasDup := func(o mkOp) bool {
+		seen := map[string]bool{}
+		for _, k := range o.keyList() {
+			if seen[k] {
+				return true
+			}
+			seen[k] = true
 		}
+		return false
+	}
+	for i, o := range ops {
+		if one.replies[i] == modelReplies[i] {
+			continue
+		}
+		devs[o.Name]++
+		sig := "multikey-mismatch/" + o.Name
+		what := "differs from the one-store model"
+		if hasDup(o) {
+			sig = "multikey-dup-key/" + o.Name
+			what = "names a key more than once and differs from the one-store model"
+		}
+		if modelFired[sig] {
+			continue
+		}
+		modelFired[sig] = true
+		c.Violation(sig, fmt.Sprintf("%s on the 1-partition namespace %s: reply %s, model %s (command %d of the sequence: %v)", o.Name, what, cut(one.replies[i], 200), cut(modelReplies[i], 200), i, cutList(qargv(o.argv("p1")), 14)),
+			c15Witness{Part: "d-model", Engine: eng, N: 1, Commands: [][]string{qargv(o.argv("p1"))},
+				Detail: map[string]interface{}{"op_index": i, "reply": one.replies[i], "model_reply": modelReplies[i], "ops_seed_stream": 5000, "note": "state before the command = the sequence genMkOps(seed stream 5000) up to op_index"}})
 	}
 	c.Ev.Set("d_onestore_vs_gomap_deviations", devs)
+	{
+		mf := map[string]string{}
+		for k, v := range model {
+			mf[k] = "$" + strconv.Quote(v)
+		}
+		c.Ev.Eval()
+		if !sameMap(one.final, mf) && !modelFired["multikey-dup-key/final-state"] {
+			c.Violation("multikey-dup-key/final-state", fmt.Sprintf("after %d commands the keys of the 1-partition namespace differ from the one-store model: %s", len(ops), diffMap(one.final, mf)),
+				c15Witness{Part: "d-model", Engine: eng, N: 1, Detail: map[string]interface{}{"diff": diffMap(one.final, mf), "ops_seed_stream": 5000}})
+		}
+	}
 	fired := map[string]int{}
 	for _, ru := range runs {
 		if ru.n == 1 {
